@@ -653,6 +653,34 @@ def r_warmfit(A, ctx, scope, rule="R-WARMFIT"):
     cnode = [nd.id for nd in cfg.stmts() if nd.kind != "for" and any(x is call for x in ast.walk(nd.ast))][0]
     warg, xarg = call.args[4], call.args[5]
     rd = cfg.reaching_defs()
+    # the start vector is not modified between the computation of its model fit and solve(): a clipping /
+    # projection of `w` after `Xw = X @ w ...` hands the solver an inconsistent pair
+    if isinstance(warg, ast.Name) and isinstance(xarg, ast.Name):
+        flow = A.flow
+        xdefs = [d for d in rd.get(cnode, {}).get(xarg.id, ()) if d >= 0 and warg.id in names_in(cfg.nodes[d].ast)]
+        for d in xdefs:
+            seen, todo, bad = set(), list(cfg.succ[d]), None
+            while todo:
+                x = todo.pop()
+                if x in seen or x == cnode:
+                    continue
+                seen.add(x)
+                st = cfg.nodes[x].ast
+                if st is not None and cfg.nodes[x].kind == "stmt":
+                    mut = flow.stmt_mutates(f, st)
+                    if isinstance(st, ast.Assign):
+                        mut = mut - {t.id for t in st.targets if isinstance(t, ast.Name)}
+                    outkw = [k for c_ in ast.walk(st) if isinstance(c_, ast.Call) for k in c_.keywords
+                             if k.arg == "out" and warg.id in names_in(k.value)]
+                    if warg.id in mut or outkw:
+                        bad = st
+                todo += cfg.succ[x]
+            n += 1
+            ctx.ob(rule, f"{f.fq}::start-modified-after-model-fit::{norm_src(cfg.nodes[d].ast)[:40]}", bad is None,
+                   what=(f"`{norm_src(bad)[:70]}` modifies the start vector `{warg.id}` after its model fit "
+                         f"`{norm_src(cfg.nodes[d].ast)[:50]}` was computed: solve() receives a pair with Xw != X w + b, "
+                         "never recomputes it, and certifies the wrong point") if bad is not None else "",
+                   loc=loc(f, bad) if bad is not None else None)
     for d in sorted(x for x in rd[cnode].get(xarg.id, ()) if x >= 0):
         a = cfg.nodes[d].ast
         v = a.value
